@@ -33,7 +33,11 @@ def check_modified_block(
     cfg.analyze(def_ass_before, maybe_ass_before, [])
     captured = {
         x: (_set_inout_if_non_copyable(ctx.locals[x]), using_bb.vars.used[x])
-        for x, using_bb in cfg.live_before[cfg.entry_bb].items()
+        # Sorted by name: the key order of the liveness result depends on the order in
+        # which the dataflow worklist was processed
+        for x, using_bb in sorted(
+            cfg.live_before[cfg.entry_bb].items(), key=lambda item: item[0]
+        )
         if x in ctx.locals
     }
 
